@@ -266,6 +266,54 @@ def part_lists_and_sums(ctx):
             ctx.case({'sum': inp}, nontrivial_key=('sum', a, repr(inp)), kind='sum:' + ('cheat' if cheat else 'clean'))
 
 
+POISON = ['sqrt(4) + ' + '(' * 80 + '1' + ')' * 80, 'tan(1) + cos(2) + ' + '(' * 120 + 'x' + ')' * 120, 'sqrt(', 'sqrt(2)) + tan(1', 'f(sqrt(1), tan(2) +', 'sqrt(1) + 2 3', '[' * 70 + 'sqrt(1)' + ']' * 70]
+
+
+def part_history(ctx):
+    """restrictions cannot be bypassed by first submitting something that fails (the parser is shared by the whole process)"""
+    from mitxgraders import FormulaGrader, NumericalGrader, MatrixGrader, SumGrader
+    rng = ctx.rng
+    for cls in (FormulaGrader, NumericalGrader, MatrixGrader):
+        for it in range(ctx.scale(6, 40)):
+            kw = {} if cls is NumericalGrader else {'variables': ['x']}
+            req = cls(answers='sqrt(4)' if cls is NumericalGrader else 'sqrt(x^2 + 1)', required_functions=['sqrt'], **kw)
+            bl = cls(answers='4' if cls is NumericalGrader else 'x + tan(0)', blacklist=['tan', 'cos'], **kw)
+            for poison in rng.sample(POISON, 3):
+                for g in (req, bl):
+                    D.run_impl(lambda: g(None, poison))
+            stu_req = '4^0.5' if cls is NumericalGrader else '(x^2 + 1)^0.5'
+            k, v = D.run_impl(lambda: req(None, stu_req))
+            if not (k == 'err' and v[1] == 'InvalidInput'):
+                ctx.violation('after a failing submission, a formula omitting the required function was not refused', {'part': 'history', 'class': cls.__name__, 'student': stu_req}, impl=v if k == 'err' else GG.canon_result(v))
+            stu_bl = '4 + 0*1' if cls is NumericalGrader else 'x + 0*x'
+            k, v = D.run_impl(lambda: bl(None, stu_bl))
+            if not (k == 'out' and v['ok'] is True):
+                ctx.violation('after a failing submission that used a blacklisted function, a clean formula is refused', {'part': 'history', 'class': cls.__name__, 'student': stu_bl}, impl=v if k == 'err' else GG.canon_result(v))
+            ctx.case({'history': cls.__name__}, nontrivial_key=('hist', cls.__name__, it), kind='history')
+    # every input box of a summation grader is checked for forbidden strings
+    keys = ['lower', 'upper', 'summand', 'summation_variable']
+    for it in range(ctx.scale(30, 300)):
+        used = rng.sample(keys[:3], rng.randint(1, 3)) + (['summation_variable'] if rng.random() < 0.5 else [])
+        rng.shuffle(used)
+        pos = {k: i + 1 for i, k in enumerate(used)}
+        ans = {'lower': '1', 'upper': '5', 'summand': '2*n', 'summation_variable': 'n'}
+        sg = SumGrader(answers=ans, input_positions=pos, forbidden_strings=['+'])
+        clean = {'lower': '1', 'upper': '5', 'summand': '2*n', 'summation_variable': 'n'}
+        dirty = {'lower': '0+1', 'upper': '4+1', 'summand': 'n+n', 'summation_variable': 'n'}
+        for bad_key in [k for k in used if k != 'summation_variable'] + [None]:
+            fields = dict(clean)
+            if bad_key:
+                fields[bad_key] = dirty[bad_key]
+            inp = [fields[k] for k in sorted(pos, key=lambda k: pos[k])]
+            k, v = D.run_impl(lambda: sg(None, inp))
+            case = {'part': 'sum-forbidden', 'positions': pos, 'student': inp, 'field': bad_key}
+            if bad_key and not (k == 'err' and v[1] == 'InvalidInput'):
+                ctx.violation('a forbidden string in the %s field (box %d) of a summation was not refused' % (bad_key, pos[bad_key]), case, impl=v if k == 'err' else GG.canon_result(v))
+            if not bad_key and not (k == 'out' and v['ok'] is True):
+                ctx.violation('a clean summation was refused', case, impl=v if k == 'err' else GG.canon_result(v))
+            ctx.case(case, nontrivial_key=('sumforb', repr(sorted(pos.items())), bad_key), kind='sum-forbidden:' + ('dirty' if bad_key else 'clean'))
+
+
 def part_permitted(ctx):
     """get_permitted_functions against the model's closed form"""
     from mitxgraders.helpers.math_helpers import get_permitted_functions
@@ -287,6 +335,7 @@ def part_permitted(ctx):
 def run(ctx):
     part_formula(ctx)
     part_lists_and_sums(ctx)
+    part_history(ctx)
     part_permitted(ctx)
 
 
